@@ -75,7 +75,7 @@ var webhookFaults = []string{
 	"conn_refused", "dns_error", "timeout", "500", "502_then_ok", "503_retry_after", "429_retry_after",
 	"301", "400", "404", "410", "body_read_error", "oversize", "gzip", "empty", "non_json", "truncated_json",
 	"nul_bytes", "escaped_nul", "invalid_utf8", "dup_keys", "case_keys", "deep_nesting", "huge_numbers",
-	"json_array", "json_scalar", "json_null", "unicode", "long_strings",
+	"json_array", "json_scalar", "json_null", "unicode", "long_strings", "json_true", "json_false", "json_number",
 }
 
 func (t *Transport) count(kind string) { t.FaultCounts[kind]++ }
@@ -223,6 +223,12 @@ func (t *Transport) respond(req *http.Request, reqBody []byte, kind string, h ui
 		return mkResp(req, 200, nil, []byte(`"just a string"`)), nil
 	case "json_null":
 		return mkResp(req, 200, nil, []byte(`null`)), nil
+	case "json_true":
+		return mkResp(req, 200, nil, []byte(`true`)), nil
+	case "json_false":
+		return mkResp(req, 200, nil, []byte(`false`)), nil
+	case "json_number":
+		return mkResp(req, 200, nil, []byte(`42`)), nil
 	case "unicode":
 		return mkResp(req, 200, nil, []byte(`{"emoji":"😀👍🏽","rtl":"שלום","combining":"é","bmp":"😀","@at":"@contact","quote":"\"","key with space":{"0":"zero","-1":"neg"}}`)), nil
 	case "long_strings":
